@@ -46,6 +46,16 @@
 (* yields one failed sample.  "connect_plain" is the negative control (the *)
 (* gun ignores connect-ssl).                                               *)
 (*                                                                         *)
+(* Re-used entries: a file case may say n (instances) and rounds: the      *)
+(* entries of a SMALL file are handed out again and again (passes          *)
+(* unlimited; preload keeps the decoded entries, an http/json ARRAY file   *)
+(* does so too), in every round all n instances first acquire and only     *)
+(* then shoot, concurrently - so a request is on its way while the same    *)
+(* entry has already been handed out again.  A delivered request stays     *)
+(* what it was: every one of the n * rounds requests must arrive as        *)
+(* Wire(EntryCase(f, k)) for its entry k.  Negative control "shared_cursor"*)
+(* (requests built from one decoded entry share the body read position).   *)
+(*                                                                         *)
 (* header/date middleware (provider option `middlewares`): a case may      *)
 (* carry mw = [name, loc].  Acquire runs the middlewares on the built      *)
 (* request - after the ammo's and the option's headers are in place - and  *)
@@ -76,6 +86,7 @@ CONSTANTS Formats,      \* subset of {"uri", "uripost", "raw", "json"}
           OptHdrs,      \* sequence of [n, v]: alphabet of option header fields (may contain Host)
           EmptyHdrs,    \* sequence of [n, v]: entry header fields with an empty / blank value (used one at a time)
           Files,        \* multi-entry file cases
+          ReuseFiles,   \* small files handed out again and again to several instances
           MWNames,      \* header/date middleware: header names explored ("" = the default, Date); {} = none
           SideFilters,  \* answlog filters explored with httptrace on/off ({} = no side-channel cases)
           ConnectModes, \* connect gun: values of connect-ssl explored ({} = no connect cases)
@@ -263,8 +274,9 @@ EntryCase(f, k) ==
         names == Names(ls) \ {"Host"}
         eh    == SetToSeq({[n |-> n, v |-> LastVal(ls, n)] : n \in names})
         hasH  == "Host" \in Names(ls)
-    IN  Case(f.fmt, f.ssl, FALSE, IF f.fmt = "uripost" THEN "POST" ELSE "GET", f.entries[k].uri, hasH, eh, f.opts,
-             f.entries[k].body)
+        \* negative control: the entry is in flight more than once and a later reader finds the body already read
+        body  == IF Variant = "shared_cursor" /\ "n" \in DOMAIN f /\ f.n > 1 THEN "" ELSE f.entries[k].body
+    IN  Case(f.fmt, f.ssl, FALSE, IF f.fmt = "uripost" THEN "POST" ELSE "GET", f.entries[k].uri, hasH, eh, f.opts, body)
         @@ [hostv |-> IF hasH THEN LastVal(ls, "Host") ELSE ""]
 
 -----------------------------------------------------------------------------
@@ -317,7 +329,9 @@ Unchanged == /\ Wire(C).method = C.method /\ Wire(C).uri = C.uri /\ Wire(C).body
              /\ Wire(C).server = "target" /\ (Wire(C).scheme = "https") = C.ssl
 
 \* design-level sanity for files (state variable C holds a file case, config HttpWire_files.cfg)
-FInit == C \in Files
+FInit == C \in Files \cup ReuseFiles
+\* every request of an entry - the first one and every later one built from the same decoded entry - carries its body
+BodyOfEntry == \A k \in DOMAIN C.entries : Wire(EntryCase(C, k)).body = C.entries[k].body
 Prefix(f, k) == [f EXCEPT !.entries = SubSeq(f.entries, 1, k)]
 \* what an entry sends does not depend on anything written after it
 LaterLinesDontMatter == \A k \in DOMAIN C.entries : Wire(EntryCase(C, k)) = Wire(EntryCase(Prefix(C, k), k))
